@@ -78,11 +78,23 @@ def classify_error(p):
     return "unclassified " + hexs(body)
 
 
+_PARSES = [0]
+
+
 def parse_answer(text: bytes, parser=None, timeout=2, want_yields=False):
     """Run the real parser; answer in the driver's `parse` format (plus diagnostics)."""
-    p = parser or Parser()
+    # every fifth parse with a fresh Parser uses the public `debug=True` flag (trace printed to a discarded stdout):
+    # tracing must not change the verdict, the tree or the reported place
+    _PARSES[0] += 1
+    dbg = parser is None and _PARSES[0] % 5 == 0
+    p = parser or Parser(debug=dbg)
     _yield_counter[0] = 0
-    st, val = with_watchdog(lambda: p.parse(text), timeout)
+    if dbg:
+        import contextlib
+        with contextlib.redirect_stdout(io.StringIO()):
+            st, val = with_watchdog(lambda: p.parse(text), timeout)
+    else:
+        st, val = with_watchdog(lambda: p.parse(text), timeout)
     y = _yield_counter[0]
     if st == "hang":
         ans = "hang"
